@@ -5,5 +5,6 @@ CONSTANTS
  Names = {1, 2}
  Deviations = "intended"
  UseCache = TRUE
+ Evicting = TRUE
 INVARIANTS SharedObjectsNeverWritten DirtyImpliesPrivate UnsharedHasOneOwner CacheAgreesWithStore
 CHECK_DEADLOCK FALSE
